@@ -81,7 +81,7 @@ MENU = {
 }
 MENUS = {
     "quick": {"mc": ["sad1", "sad3", "sad5", "sad7", "ssd"], "cv": ["cbca", "opt", "amb"],
-              "dm": ["med1", "med3", "med5", "bil0.5", "bil1", "bil6", "mfi3", "vfit", "cross", "ms"]},
+              "dm": ["med1", "med3", "med5", "bil0.5", "bil1", "bil6", "bil", "mfi3", "vfit", "cross", "ms"]},
     "full": {"mc": ["sad1", "sad3", "sad5", "sad7", "ssd", "census3", "zncc9"], "cv": ["cbca", "opt", "std", "amb"],
              "dm": ["med1", "med3", "med5", "med", "bil0.5", "bil1", "bil6", "bil", "mfi3", "vfit", "quad", "cross",
                     "ms"]},
